@@ -1409,6 +1409,54 @@ func ruleHSKVER(c *Checker, rmp *ssa.Function) {
 		return false
 	}
 	inRange := func(b *ssa.BasicBlock) bool { return factsInRange(factsAt(b)) }
+	// act 3 (read by the responder): the version byte must be the one the responder chose in act 2.
+	// The range test is not enough there: v1 and v2 share a wire format, so a rewritten act-2 byte
+	// would leave the two sides on different versions. There must be a comparison of the wire byte
+	// with h.version, under ActNum == act3, whose mismatch leg returns an error.
+	{
+		fAct := w.Field("mailbox.MessagePattern.ActNum")
+		act3 := w.Const("mailbox.act3")
+		okEcho := false
+		if fAct != nil && act3 != nil {
+			a3, _ := constant.Int64Val(constant.ToInt(act3.Val()))
+			for _, bb := range rmp.Blocks {
+				if len(bb.Instrs) == 0 {
+					continue
+				}
+				iff, ok := bb.Instrs[len(bb.Instrs)-1].(*ssa.If)
+				if !ok {
+					continue
+				}
+				rel := factRel(Fact{iff.Cond, true}, isValue(version), func(v ssa.Value) bool { return isLoadOfField(v, fVer) })
+				if rel != "==" && rel != "!=" {
+					continue
+				}
+				underAct3 := hasFact(bb, func(f Fact) bool {
+					return factRel(f, func(v ssa.Value) bool {
+						u, ok := unwrapLoadAlloc(v).(*ssa.UnOp)
+						if ok && u.Op == token.MUL {
+							if fa, ok := u.X.(*ssa.FieldAddr); ok && structFieldOf(fa) == fAct {
+								return true
+							}
+						}
+						if fl, ok := unwrapLoadAlloc(v).(*ssa.Field); ok && structFieldOf(fl) == fAct {
+							return true
+						}
+						return false
+					}, func(v ssa.Value) bool { k, ok := intConst(v); return ok && k == a3 }) == "=="
+				})
+				mismatch := bb.Succs[0]
+				if rel == "==" {
+					mismatch = bb.Succs[1]
+				}
+				if underAct3 && blockReturnsError(mismatch, 0) {
+					okEcho = true
+				}
+			}
+		}
+		c.decide(okEcho, "HSK-VER", "readMsgPattern|act 3 echoes the chosen version", rmp.Pos(), "under ActNum == act3 the wire version is compared with h.version and a mismatch is an error",
+			"the responder does not insist that act 3 carries the version it chose in act 2: a man-in-the-middle rewriting the act-2 version byte leaves client and server on different versions (and only one of them publishes the remote key)")
+	}
 	// unvalidated: blocks reachable from the entry along edges on which the version is neither range-checked nor equal to ours
 	unvalidated := map[*ssa.BasicBlock]bool{rmp.Blocks[0]: true}
 	work := []*ssa.BasicBlock{rmp.Blocks[0]}
